@@ -82,6 +82,7 @@ int main(void)
 			show(lb, rc);
 		}
 		printf("\n");
+		fflush(stdout);		/* a crash is then attributed to the right request */
 		probe_xb = NULL;
 		lbuf_free(lb);
 	}
